@@ -23,7 +23,12 @@ pub enum Op {
     NumFmt { sheet: usize, cell: String, code: String },
     FillColor { sheet: usize, cell: String, argb: String },
     NewSheet { name: String },
-    RemoveSheet { sheet: usize },
+    RemoveSheet {
+        sheet: usize,
+        /// through remove_sheet_by_name instead of remove_sheet(index)
+        #[serde(default)]
+        by_name: bool,
+    },
     RenameSheet { sheet: usize, name: String },
     SetActive { sheet: usize },
     SetState { sheet: usize, state: String },
@@ -35,6 +40,7 @@ pub enum Op {
     SheetRemoveRow { sheet: usize, row: u32, n: u32 },
     SheetRemoveCol { sheet: usize, col: u32, n: u32 },
     SheetInsertRow { sheet: usize, row: u32, n: u32 },
+    SheetInsertCol { sheet: usize, col: u32, n: u32 },
     BookInsertRow { sheet: usize, row: u32, n: u32 },
     BookRemoveCol { sheet: usize, col: u32, n: u32 },
     ColWidth { sheet: usize, col: u32, w: f64 },
@@ -79,6 +85,7 @@ impl Op {
             Op::SheetRemoveRow { .. } => "sheet_remove_row",
             Op::SheetRemoveCol { .. } => "sheet_remove_col",
             Op::SheetInsertRow { .. } => "sheet_insert_row",
+            Op::SheetInsertCol { .. } => "sheet_insert_col",
             Op::BookInsertRow { .. } => "book_insert_row",
             Op::BookRemoveCol { .. } => "book_remove_col",
             Op::ColWidth { .. } => "col_width",
@@ -108,6 +115,27 @@ fn sheet_mut(book: &mut Spreadsheet, sheet: usize) -> Option<&mut umya::Workshee
 
 pub const PNG_RED: [u8; 69] = [137, 80, 78, 71, 13, 10, 26, 10, 0, 0, 0, 13, 73, 72, 68, 82, 0, 0, 0, 1, 0, 0, 0, 1, 8, 2, 0, 0, 0, 144, 119, 83, 222, 0, 0, 0, 12, 73, 68, 65, 84, 120, 156, 99, 248, 207, 192, 0, 0, 3, 1, 1, 0, 201, 254, 146, 239, 0, 0, 0, 0, 73, 69, 78, 68, 174, 66, 96, 130];
 pub const PNG_BLUE: [u8; 69] = [137, 80, 78, 71, 13, 10, 26, 10, 0, 0, 0, 13, 73, 72, 68, 82, 0, 0, 0, 1, 0, 0, 0, 1, 8, 2, 0, 0, 0, 144, 119, 83, 222, 0, 0, 0, 12, 73, 68, 65, 84, 120, 156, 99, 96, 96, 248, 15, 0, 1, 3, 1, 0, 8, 137, 194, 236, 0, 0, 0, 0, 73, 69, 78, 68, 174, 66, 96, 130];
+
+/// (highest column, highest row) that carries a cell, a comment or a dimension record
+fn extent(ws: &umya::Worksheet) -> (u32, u32) {
+    let mut c = 0u32;
+    let mut r = 0u32;
+    for cell in ws.get_cell_collection() {
+        c = c.max(*cell.get_coordinate().get_col_num());
+        r = r.max(*cell.get_coordinate().get_row_num());
+    }
+    for cm in ws.get_comments() {
+        c = c.max(*cm.get_coordinate().get_col_num());
+        r = r.max(*cm.get_coordinate().get_row_num());
+    }
+    for d in ws.get_row_dimensions() {
+        r = r.max(*d.get_row_num());
+    }
+    for d in ws.get_column_dimensions() {
+        c = c.max(*d.get_col_num());
+    }
+    (c, r)
+}
 
 /// Apply one operation through the public API. Returns false if it was skipped.
 pub fn apply(book: &mut Spreadsheet, op: &Op) -> bool {
@@ -157,12 +185,17 @@ pub fn apply(book: &mut Spreadsheet, op: &Op) -> bool {
             s.get_style_mut(cell.as_str()).set_background_color(argb.clone());
         }),
         Op::NewSheet { name } => book.new_sheet(name.clone()).ok().map(|_| ()),
-        Op::RemoveSheet { sheet } => {
+        Op::RemoveSheet { sheet, by_name } => {
             let n = book.get_sheet_count();
             if n <= 1 {
                 None
             } else {
-                let r = book.remove_sheet(*sheet % n).ok();
+                let r = if *by_name {
+                    let name = book.get_sheet_collection_no_check()[*sheet % n].get_name().to_string();
+                    book.remove_sheet_by_name(&name).ok()
+                } else {
+                    book.remove_sheet(*sheet % n).ok()
+                };
                 // the caller keeps the active tab inside the sheet list (remove_sheet does not)
                 if *book.get_workbook_view().get_active_tab() as usize >= book.get_sheet_count() {
                     book.set_active_sheet(0);
@@ -249,6 +282,19 @@ pub fn apply(book: &mut Spreadsheet, op: &Op) -> bool {
         Op::SheetRemoveCol { sheet, col, n } => sheet_mut(book, *sheet).map(|s| {
             s.remove_column_by_index(col, n);
         }),
+        // Excel refuses an insertion that would push content off the grid; the library has no error path for
+        // it, so the caller must not ask (what then happens is a matter of C07/C08, not of saving)
+        Op::SheetInsertCol { sheet, col, n } => sheet_mut(book, *sheet).and_then(|s| {
+            if extent(s).0 + *n > 16384 {
+                return None;
+            }
+            s.insert_new_column_by_index(col, n);
+            Some(())
+        }),
+        Op::SheetInsertRow { sheet, row, n } if sheet_mut(book, *sheet).map(|s| extent(s).1 + *n > 1_048_576).unwrap_or(true) => {
+            let _ = (row, n);
+            None
+        }
         Op::SheetInsertRow { sheet, row, n } => sheet_mut(book, *sheet).map(|s| {
             s.insert_new_row(row, n);
         }),
@@ -550,7 +596,7 @@ pub fn gen_cell_op(rng: &mut Rng, cfg: &GenCfg, tag: &str) -> Op {
             let result = if f.starts_with("SUM") || f.contains("+1") {
                 format!("{}", rng.below(100))
             } else if rng.chance(1, 2) {
-                format!("s:{}", ["007", "TRUE", "false", "#N/A", "7e2", "001.50", " 12 ", "abc", "#DIV/0!", "1,5"][rng.usize(10)])
+                format!("s:{}", ["007", "TRUE", "false", "#N/A", "7e2", "001.50", " 12 ", "abc", "#DIV/0!", "1,5", "", ""][rng.usize(12)])
             } else {
                 format!("r<{}>&", rng.below(9))
             };
